@@ -10,7 +10,7 @@
    and no ancestor of it is a file), [fresh_or_overwrite] (overwrite requested, or nothing at the target). *)
 From Coq Require Import ZArith QArith Reals List Bool.
 Close Scope Q_scope.
-From PAV Require Import Base.NumOps Base.Check Model.C16 Proofs.C16.
+From PAV Require Import Base.NumOps Base.Check Model.C16 Proofs.C16 Proofs.C16img.
 Import ListNotations.
 Local Notation RO := ROps.
 
@@ -176,6 +176,40 @@ Theorem C16_write_keeps_tree_wellformed : forall (C : Type) (fs : fsys C) p ow c
   fs_wf fs = true -> target_ok fs p = true -> fs_wf (fst (to_fits fs p ow c)) = true.
 Proof. exact @to_fits_keeps_wf. Qed.
 
+(* ------------------------------------------------------------------ Imaging.output_to_fits -> Imaging.from_fits
+   three sequential writes (data, psf, noise map) to pairwise independent targets ([indep]: neither path is the other
+   nor an ancestor directory of the other), then the three reads; from_fits re-normalises the PSF, so it comes back
+   divided by the sum of its entries -- unchanged when that sum is one (which Imaging's own constructor ensures) *)
+Theorem C16_imaging_roundtrip : forall flip (fs : fitsfs (T RO) (list (T RO))) (data noise psf : @array2d RO) pd pp pn ow sc chk,
+  fs_wf fs = true ->
+  target_ok fs pd = true -> target_ok fs pp = true -> target_ok fs pn = true ->
+  fresh_or_overwrite fs pd ow = true -> fresh_or_overwrite fs pp ow = true -> fresh_or_overwrite fs pn ow = true ->
+  indep pd pp = true -> indep pd pn = true -> indep pp pn = true ->
+  chk && negb (forallb (fun v => negb (leb RO v zero)) (concat (Array2D_native noise))) = false ->
+  exists fs3 d n k,
+    Imaging_output_to_fits flip fs data noise psf pd pp pn ow = (fs3, None)
+    /\ Imaging_from_fits flip fs3 sc pd pp pn chk = FOk (d, n, k)
+    /\ Array2D_native d = Array2D_native data /\ a_scales d = sc
+    /\ Array2D_native n = Array2D_native noise /\ a_scales n = sc
+    /\ Array2D_native k = map (map (fun x => div RO x (sumT (concat (Array2D_native psf))))) (Array2D_native psf)
+    /\ a_scales k = sc.
+Proof. exact Imaging_roundtrip. Qed.
+Theorem C16_imaging_roundtrip_normalized_psf :
+  forall flip (fs : fitsfs (T RO) (list (T RO))) (data noise psf : @array2d RO) pd pp pn ow sc chk,
+  fs_wf fs = true ->
+  target_ok fs pd = true -> target_ok fs pp = true -> target_ok fs pn = true ->
+  fresh_or_overwrite fs pd ow = true -> fresh_or_overwrite fs pp ow = true -> fresh_or_overwrite fs pn ow = true ->
+  indep pd pp = true -> indep pd pn = true -> indep pp pn = true ->
+  chk && negb (forallb (fun v => negb (leb RO v zero)) (concat (Array2D_native noise))) = false ->
+  sumT (concat (Array2D_native psf)) = @one RO ->
+  exists fs3 d n k,
+    Imaging_output_to_fits flip fs data noise psf pd pp pn ow = (fs3, None)
+    /\ Imaging_from_fits flip fs3 sc pd pp pn chk = FOk (d, n, k)
+    /\ Array2D_native d = Array2D_native data
+    /\ Array2D_native n = Array2D_native noise
+    /\ Array2D_native k = Array2D_native psf.
+Proof. exact Imaging_roundtrip_normalized_psf. Qed.
+
 (* ------------------------------------------------------------------ non-vacuity *)
 (* file-system hypotheses: a tree with directory 1, a file 1/10 and a bystander 19; targets: the existing file
    (overwrite), a bare name, a path below two missing directories *)
@@ -185,6 +219,7 @@ Example C16_fs_hyps_satisfiable :
   /\ (target_ok ex_fs [1; 10] = true /\ is_file ex_fs [1; 10] = true /\ fresh_or_overwrite ex_fs [1; 10] true = true)
   /\ (target_ok ex_fs [10] = true /\ fresh_or_overwrite ex_fs [10] false = true)
   /\ (target_ok ex_fs [2; 3; 10] = true /\ fresh_or_overwrite ex_fs [2; 3; 10] false = true)
+  /\ (indep [1; 10] [1; 11] = true /\ indep [1; 10] [12] = true /\ indep [1; 11] [12] = true /\ indep [1] [1; 10] = false)%nat
   /\ sole_index 0%Z = true /\ sole_index (-1)%Z = true /\ sole_index 1%Z = false
   /\ to_fits ex_fs [2; 3; 10] false 9 = (mkfs [[1]; [2]; [2; 3]] [([1; 10], 7); ([19], 8); ([2; 3; 10], 9)], None)%nat
   /\ to_fits ex_fs [1; 10] true 9 = (mkfs [[1]] [([19], 8); ([1; 10], 9)], None)%nat
@@ -197,6 +232,13 @@ Example C16_shape_hyps_satisfiable :
   /\ length [1; -2; 3]%R = length [false; true; false]
   /\ (1 <> 2)%R.
 Proof. repeat split. apply R1_neq_R0 || (intro H; apply eq_IZR in H; discriminate). Qed.
+(* value hypotheses of the Imaging statements: a positive noise map with the check on, a PSF summing to one *)
+Example C16_imaging_value_hyps_satisfiable :
+  let noise := @mkarr2 RO [1; 2; 4]%R [[false; false; false]] (1, 1)%R in
+  let psf := @mkarr2 RO [/ 2; / 4; / 4]%R [[false; false; false]] (1, 1)%R in
+  true && negb (forallb (fun v => negb (leb RO v zero)) (concat (Array2D_native noise))) = false
+  /\ sumT (concat (Array2D_native psf)) = @one RO.
+Proof. exact imaging_value_hyps_satisfiable. Qed.
 (* the model RUN (at Q) on a non-symmetric 2x3 array with a masked pixel and anisotropic scales, flag on: what is
    written is upside-down, what is read back is the zero-filled input with the scales (1/2, 1/4) *)
 Example C16_model_run_flip :
@@ -240,3 +282,5 @@ Print Assumptions C16_overwrite_replaces.
 Print Assumptions C16_missing_dirs_created.
 Print Assumptions C16_bare_name_writes_cwd.
 Print Assumptions C16_write_keeps_tree_wellformed.
+Print Assumptions C16_imaging_roundtrip.
+Print Assumptions C16_imaging_roundtrip_normalized_psf.
